@@ -6,6 +6,25 @@ use rustc_hir::def_id::{DefId, LocalDefId};
 use rustc_middle::mir::{self, *};
 use rustc_middle::ty::{self, TyKind};
 
+/// Promoted constants of every body (`<path>::promoted[i]`): small straight-line bodies the checker evaluates itself
+/// (range literals, array literals) — kept apart from the function bodies so that no census counts them.
+pub fn export_promoted<'tcx>(cx: &Cx<'tcx>) -> J {
+    let tcx = cx.tcx;
+    let mut objs = Vec::new();
+    for ldid in tcx.hir_body_owners() {
+        let did = ldid.to_def_id();
+        let kind = tcx.def_kind(did);
+        if !matches!(kind, DefKind::Fn | DefKind::AssocFn | DefKind::Closure) {
+            continue;
+        }
+        for (pi, pb) in tcx.promoted_mir(did).iter_enumerated() {
+            let key = format!("{}::promoted[{}]", cx.path(did), pi.as_usize());
+            objs.push((key, export_body(cx, ldid, pb)));
+        }
+    }
+    J::Obj(objs)
+}
+
 pub fn export_mir<'tcx>(cx: &Cx<'tcx>) -> J {
     let tcx = cx.tcx;
     let mut out = Vec::new();
